@@ -331,9 +331,9 @@ func checkStorageRanges(ref *RefState, mustServe bool, accounts []common.Hash, o
 	budget := budgetOf(reqBytes)
 	hard := uint64(float64(budget) * (1 + snap.VerifStateLookupSlack))
 	var (
-		size    uint64
-		li      = 0 // next slot list of the answer
-		proven  = false
+		size       uint64
+		li         = 0 // next slot list of the answer
+		proven     = false
 		wellFormed = true // every account so far exists and has storage
 	)
 	for ai, ah := range accounts {
@@ -793,15 +793,14 @@ func ShrinkC48(pl any) []any {
 // ---- the run
 
 type run48 struct {
-	p    *Plan48
-	w    *World
-	res  *simcore.Result
-	viol *simcore.Violation
-	log  simcore.Hash64
-	allCodes map[common.Hash][]byte
+	p         *Plan48
+	w         *World
+	res       *simcore.Result
+	viol      *simcore.Violation
+	log       simcore.Hash64
+	allCodes  map[common.Hash][]byte
 	codesUpTo int
 }
-
 
 func (r *run48) noteCodes(ref *RefState) {
 	for h, c := range ref.Codes {
